@@ -5,13 +5,14 @@ MANIFEST = dict(
     text="Piece selection of the spline evaluator decided on the real body for every strictly increasing knot vector with spacing >= 1e-4 (symbolic "
          "knots and abscissa, 2..4 pieces): an abscissa strictly inside piece j is evaluated with the coefficients of piece j, at any scale of x; "
          "coefficient table layout (one row per interval, left knot, ordinate = the spline passes through the knots) and all variable-length-"
-         "array indices in bounds for 3..5 points.",
-    note="Bounded number of pieces/points. C2 continuity, natural end conditions, exact reproduction of straight lines, trapezoid additivity and the "
+         "array indices in bounds for 3..5 points; the trapezoid area (curve_area without interpolation) equals the exact integral of the polyline and is additive over every split point, on exact "
+         "instances (integer abscissae/ordinates 0..3, 3..4 points: independent of the evaluation order).",
+    note="Bounded number of pieces/points. C2 continuity, natural end conditions, exact reproduction of straight lines, the trapezoid area on general data and the "
          "simplex minimiser's convergence are numerical and not decided; the simplex's reported-value / no-worse-than-start clauses are decided for dimension 1 and <= 1 iteration (2 in the thorough tier) with an arbitrary deterministic objective.",
     technique="CBMC on the real spline bodies with a precondition-selected coefficient instance (piece j = constant j); bounded pieces")
 
-META = dict(decided="piece lookup independent of knot spacing/scale; table layout; index safety of the tridiagonal solve arrays; simplex: reported value = f(returned point), never worse than the best initial vertex (dimension 1)",
-            not_decided="C2 continuity, end conditions, line reproduction, unit independence of coefficients, trapezoid area, simplex convergence",
+META = dict(decided="trapezoid area == polyline integral and additivity (exact instances); piece lookup independent of knot spacing/scale; table layout; index safety of the tridiagonal solve arrays; simplex: reported value = f(returned point), never worse than the best initial vertex (dimension 1)",
+            not_decided="C2 continuity, end conditions, line reproduction, unit independence of coefficients, trapezoid area on general (not exactly representable) data, simplex convergence",
             trusted_base=[], assumptions=["knots within +-1e4, spacing >= 1e-4 (the property's range)"])
 
 S = ["interpolate.c", "matrix.c", "vector.c", "memwrapper.c", "numeric.c"]
@@ -28,6 +29,10 @@ def jobs(tier):
         J.append(Job("table_layout@n=%d" % n, "C19/spline.c", entry="h_table_layout", srcs=S, kind="bounded", defines={"VC_NPTS": n}, unwind=max(n, 5) + 3, cbmc_flags=["--slice-formula"],
                      functions=["cubic_spline_interpolation"], timeout=900, bound="%d points, abscissae/ordinates symbolic" % n,
                      clause="coefficient table layout; spline passes through the knots; VLA indices in bounds"))
+    for n in ((3, 4) if tier == "quick" else (2, 3, 4)):
+        J.append(Job("trapezoid@n=%d" % n, "C19/trapezoid.c", entry="h_trapezoid", srcs=["matrix.c", "vector.c", "memwrapper.c", "numeric.c", "interpolate.c"], kind="bounded", defines={"VC_N": n},
+                     unwind=n + 3, functions=["curve_area"], timeout=900, bound="%d points, integer abscissae/ordinates in 0..3 (IEEE, exact instances)" % n,
+                     clause="trapezoid area == exact integral of the polyline; additive over every split point; input unchanged"))
     for it in ((0, 1) if tier == "quick" else (0, 1, 2)):   # 2 iterations take ~7 min
         J.append(Job("simplex_value@iter=%d" % it, "C19/simplex.c", entry="h_simplex_value", srcs=["matrix.c", "vector.c", "memwrapper.c", "numeric.c"], kind="bounded",
                      defines={"VC_ITER": it}, unwind=max(it + 3, 26), functions=["NelderMeadSimplex"], timeout=900, object_bits=10,
